@@ -266,7 +266,7 @@ pub fn run(tier: Tier) -> i32 {
     patterns.push(r"/a/b/(".to_string());
     patterns.push(r"Abc/(?:[a-z]+)".to_string());
     for (unique, ignore_case) in [(false, false), (false, true), (true, false)] {
-        let cfg = c08::Config { set: if unique { "main-unique".into() } else { "main".into() }, patterns: patterns.clone(), unique, ignore_case, second_ids: false, cache_ops: true, insert_only: false };
+        let cfg = c08::Config { set: if unique { "main-unique".into() } else { "main".into() }, patterns: patterns.clone(), unique, ignore_case, second_ids: false, cache_ops: true, insert_only: false, prefill: 0 };
         let model = c08::Model::new(&ctx, cfg.clone(), "C12", true);
         let depth = tier.pick(3, 4);
         let st = explore(&ctx, &model, depth);
@@ -277,6 +277,19 @@ pub fn run(tier: Tier) -> i32 {
         samples.extend(model.samples.take().into_iter().rev().take(1));
         runs.push(json!({"half": "tree", "unique": unique, "ignore_case": ignore_case, "patterns": cfg.patterns.len(), "history_depth": depth,
             "states": st.states, "transitions": st.transitions, "cache_grid": "limit in {0,1,2,3,8} x level in {None,0,1,2,3}, each also applied twice",
+            "grid_checks": model.cache_grid_checks.load(Ordering::Relaxed)}));
+    }
+    // a node with many children from the start (tree half, full cache grid at every state)
+    {
+        let cfg = c08::Config { set: "wide".into(), patterns: (0..11).map(|i| format!(r"/w/(?:[a-z]+)/c{i}")).collect(), unique: false, ignore_case: false, second_ids: false, cache_ops: true, insert_only: false, prefill: 11 };
+        let model = c08::Model::new(&ctx, cfg.clone(), "C12", true);
+        let depth = tier.pick(2, 3);
+        let st = explore(&ctx, &model, depth);
+        states += st.states;
+        transitions += st.transitions;
+        evaluations += model.cache_grid_checks.load(Ordering::Relaxed);
+        outcomes += model.outcomes.len();
+        runs.push(json!({"half": "tree, wide node", "patterns": cfg.patterns.len(), "prefilled": 11, "history_depth": depth, "states": st.states, "transitions": st.transitions,
             "grid_checks": model.cache_grid_checks.load(Ordering::Relaxed)}));
     }
     // router half
@@ -292,7 +305,7 @@ pub fn run(tier: Tier) -> i32 {
         // quick tier: the variants that put a regex somewhere (dynamic path / host, lazy marker) plus r1a / r4a / r4b as
         // literal neighbours; rules that differ only in header / time triggers add nothing to what caching can change
         if tier == Tier::Quick {
-            model.insertable = (0..w.universe.len()).filter(|i| ["r1", "r2", "r3", "r4", "r7", "r8"].contains(&w.universe[*i].id.as_str())).collect();
+            model.insertable = (0..w.universe.len()).filter(|i| ["r1", "r2", "r3", "r4", "r7", "r8", "r15"].contains(&w.universe[*i].id.as_str())).collect();
         }
         let st = explore(&ctx, &model, depth);
         states += st.states;
